@@ -56,6 +56,7 @@ func Run(o *drv.Out) {
 		tappedCases(o, base)
 		concurrentSmallAndLarge(o, base)
 		interleavedTopicsFirstLarge(o, base)
+		malformedFrameCases(o, base)
 		rawCases(o, base)
 		return
 	}
@@ -63,6 +64,7 @@ func Run(o *drv.Out) {
 	// the permanent scenarios first: when they fail, theirs is the specific signature to report
 	t0 := time.Now()
 	dialAttribution(o, base)
+	malformedFrameCases(o, base)
 	interleavedTopicsFirstLarge(o, base)
 	concurrentSmallAndLarge(o, base)
 	o.Extra["c18_interleave_s"] = time.Since(t0).Seconds()
